@@ -276,24 +276,32 @@ func oneCNS(seed uint64, res *CNSRes, h, cas int) {
 				khi = k + 1
 			}
 		}
-		for k := klo; k <= khi && k < len(snaps[c]); k++ {
+		shows := func(k int) bool {
 			m := snaps[c][k]
 			root := m.Objs[m.Root]
 			if len(root.Ents) != len(ob.names) {
-				continue
+				return false
 			}
-			same := true
 			for n, id := range root.Ents {
 				h, ok := ob.names[n]
 				if !ok || (h != "" && m.Objs[id].FH != nil && h != fmt.Sprintf("%x", m.Objs[id].FH)) {
-					same = false
-					break
+					return false
 				}
 			}
-			if same {
+			return true
+		}
+		for k := klo; k <= khi && k < len(snaps[c]); k++ {
+			if shows(k) {
 				ob.jmin = k
 				break
 			}
+		}
+		// only the operation that produced this listing is proven durable (it
+		// is a namespace operation, acknowledged with stable semantics, and
+		// the log is written in order): later operations that do not change
+		// the listing - unstable writes among them - are not
+		for ob.jmin > 0 && shows(ob.jmin-1) {
+			ob.jmin--
 		}
 		if ob.jmin > klo {
 			res.Observed++
